@@ -15,7 +15,7 @@ func init() { families["lru"] = runLRU }
 func runLRU(seed uint64, n int, tier string, out string, replay string) {
 	rnd := hx.NewRand(seed)
 	sum := hx.NewSummary("lru", seed)
-	sum.Rule = "one case = one dispatcher size S with a generated op sequence (92% get-or-create / 8% remove; half of the accesses on a hot tenth of the population); sizes: every S in 1..n plus boundary sizes (1023,1024,1025, <=0 defaults); for large S the key population is rejection-sampled into 3 shards so that evictions occur; non-trivial = more entries were created than were ever resident (an eviction or removal + re-creation happened); distinct by (S, #ops, #entries created); plus 8 reload scenarios (a registered cache re-applied under the same name with a smaller / larger / equal size, then 3x the larger size + 500 distinct keys: resident keys must stay within the larger size)"
+	sum.Rule = "one case = one dispatcher size S with a generated op sequence (92% get-or-create / 8% remove; half of the accesses on a hot tenth of the population; 60% of the new entries are left mid-fetch); sizes: every S in 1..n plus boundary sizes (1023,1024,1025, <=0 defaults); for large S the key population is rejection-sampled into 3 shards so that evictions occur; non-trivial = more entries were created than were ever resident (an eviction or removal + re-creation happened); distinct by (S, #ops, #entries created); plus 8 reload scenarios (a registered cache re-applied under the same name with a smaller / larger / equal size, then 3x the larger size + 500 distinct keys: resident keys must stay within the larger size)"
 	header := "From Coq Require Import List NArith ZArith.\nImport ListNotations.\nFrom Pike Require Import Model.Dispatcher Corr.C11Corr.\nFrom PikeRun Require Import Consts.\n"
 	w := hx.NewCaseWriter(out, "lru", header, "list lru_case", "check_cases Consts.disp_consts", 8, sum)
 	distinct := hx.NewDistinct()
@@ -94,6 +94,11 @@ func runLRU(seed uint64, n int, tier string, out string, replay string) {
 					v = uint64(len(ids))
 					ids[hc] = v
 					keep = append(keep, hc)
+					if rnd.Chance(60) {
+						// the first request on a new entry becomes its fetcher and the fetch stays in flight:
+						// entries that are mid-fetch are evicted like any other
+						_, _ = hc.Get()
+					}
 				}
 				id = v
 			} else {
